@@ -12,7 +12,7 @@
 (* real pfst (direction G).                                                   *)
 EXTENDS Integers, Sequences, FiniteSets, TLC, SequencesExt
 
-CONSTANTS MaxNodes, MaxTmpl, Emit
+CONSTANTS MaxNodes, MaxTmpl, Emit   \* Emit = 0: no rows; n > 0: every row whose size key is divisible by n
 
 Labels == {"A", "B"}
 SlotKs == {"S_", "S_a", "S_s", "S_z"}
@@ -106,6 +106,10 @@ AllHaveKids(t, pat) == (t.k \in pat => Len(t.c) >= 1) /\ \A i \in 1..Len(t.c) : 
 CaseOk(c) == /\ (c.tmpl.k = "S_a" => AllHaveKids(c.t0, c.pat))
              /\ (c.back => c.count > 0 \/ c.nested)            \* `back` only matters for count / order
              /\ (c.on = "leave" => ~c.nested)                  \* nested is ignored with on='leave'
+             (* documented hazard ("improper usage ... can lead to infinite looping"): with loop and nested a   *)
+             (* template whose own top matches is substituted again and its re-inserted captures are fresh      *)
+             (* copies, so the walk never ends (pfst does run away: `[a]`.sub(MList, '[__FST_]', True, loop=2)) *)
+             /\ (c.loop > 0 /\ c.nested => c.tmpl.k \notin c.pat)
 
 CasesOf(t0) == {c \in [t0 : {t0}, pat : Patterns, tmpl : Templates, nested : BOOLEAN, count : 0..2, loop : {0, 2},
                         on : {"enter", "leave"}, back : BOOLEAN] : CaseOk(c)}
@@ -223,5 +227,7 @@ InvStepLocal == ev.is => G!TemplateRel(KEvent(ev), ev.pre, ev.post)
 
 Row == <<"CASE", Enc(cs.t0), cs.pat, Enc(cs.tmpl), cs.nested, cs.count, cs.loop, cs.on, cs.back,
          Enc(tree), uniq, total>>
-InvEmit == (done /\ Emit) => PrintT(ToString(Row))
+InvEmit == (done /\ Emit > 0 /\ total > 0
+              /\ (Len(Enc(tree)) + Len(Enc(cs.tmpl)) + Len(Enc(cs.t0)) + uniq + total + cs.count) % Emit = 0)
+             => PrintT(ToString(Row))
 =============================================================================
